@@ -5,7 +5,9 @@
 (* Numbers (DESIGN section 4).  Everything is a plain integer on an exact grid:                               *)
 (*   log2 values   k / LU   (LU = 1024; inputs are multiples of 64, so the <= 4 halvings of the two           *)
 (*                           median-of-medians centrings stay integral: "equal" below means equal)            *)
-(*   spread        k / SU   (SU = 1024)           depth  k / 8  (only "= 0" / "> 0" matter)                   *)
+(*   spread        k / SU   (SU = 10^6: only compared -- with 1.0 = 10^6/10^6 -- and fed to monotone float      *)
+(*                           operations, so a decimal grid is as exact as a dyadic one; fine enough to scan the   *)
+(*                           weight floor)      depth  k / 8  (only "= 0" / "> 0" matter)                         *)
 (*   gc, rmask     k / GU   (GU = 10000; 0.3 = 3000/10000 and 0.7 = 7000/10000 are the very doubles the code  *)
 (*                           compares with, division being correctly rounded)                                 *)
 (*   edge density  an exact rational <<num, t>> = num / (4 * INSERT * t), compared by cross-multiplication    *)
@@ -28,7 +30,7 @@
 EXTENDS Stats
 
 LU == 1024
-SU == 1024
+SU == 1000000
 GU == 10000
 MinRefLog2 == -5 * LU           \* params.MIN_REF_COVERAGE
 MaxRefSpread == 1 * SU          \* params.MAX_REF_SPREAD
